@@ -12,6 +12,8 @@
 //	file       file import enabled over a temporary directory tree mixed with map modules (model vs code)
 //	isolation  (searcher) importer/module/sibling names must be unresolved across the module boundary
 //	immutable  (searcher) import values reject assignment; two imports share no mutable state
+//	derived    (searcher) writes into values derived from an import value (slice, append, +, copy, loop variables,
+//	           splice, delete) leave the export unchanged (seen via the value, the module's accessor, a fresh import)
 //	rerun      (searcher) every evaluation of an import expression runs the body again (host-side counter)
 //	emit, run  bytecode of import/export sites and import values vs the micro model
 //	nofs       (searcher) with file import disabled no path derived from an import name reaches the kernel
@@ -1031,6 +1033,63 @@ func immutable(r *lib.RNG, n int) {
 	}
 }
 
+// derived: the exported container must stay unchanged when the importer writes into values DERIVED from
+// the import value (slice, append, +, copy, loop variables, splice/delete). Observed three ways: through the
+// import value itself, through an accessor function of the module (the module's own variable), through a
+// fresh import expression. A runtime error (operation rejected) is acceptable.
+func derived(r *lib.RNG, n int) {
+	type form struct{ mod, x, fx, view, obs, fobs, want string }
+	forms := []form{
+		{"data := [1, 2, 3, undefined]\ndata[3] = func() { return [data[0], data[1], data[2], len(data)] }\nexport data\n",
+			"m", "fresh", "m[3]()", "[x[0], x[1], x[2], len(x)]", "[fx[0], fx[1], fx[2], len(fx)]", "(a (i 1) (i 2) (i 3) (i 4))"},
+		{"data := immutable([1, 2, 3])\nexport {list: data, view: func() { return [data[0], data[1], data[2], len(data)] }}\n",
+			"m.list", "fresh.list", "m.view()", "[x[0], x[1], x[2], len(x)]", "[fx[0], fx[1], fx[2], len(fx)]", "(a (i 1) (i 2) (i 3) (i 3))"},
+		{"data := [1, 2, 3]\nexport {list: immutable(data), view: func() { return [data[0], data[1], data[2], len(data)] }}\n",
+			"m.list", "fresh.list", "m.view()", "[x[0], x[1], x[2], len(x)]", "[fx[0], fx[1], fx[2], len(fx)]", "(a (i 1) (i 2) (i 3) (i 3))"},
+	}
+	arrOps := []string{
+		"s := x[0:2]\ns[0] = 99\n", "s := x[:]\ns[1] = 99\n", "s := x[1:]\ns[0] = 99\ns[1] = 98\n", "s := x[0:1]\ns = append(s, 77)\n",
+		"s := append(x[0:1], 77, 78)\n", "s := append(x, 7)\ns[0] = 99\n", "s := append(x)\ns[2] = 99\n", "s := x + [7]\ns[0] = 99\n",
+		"s := [7] + x\ns[1] = 99\n", "s := x[0:2] + x[2:3]\ns[0] = 99\ns[2] = 98\n", "s := copy(x)\ns[0] = 99\n", "for i, v in x { v = 99; i = 5 }\n",
+		"for v in x { v = 99 }\n", "s := splice(x, 0, 1)\n", "s := splice(x[0:3], 0, 2, 55)\n", "s := splice(copy(x), 1, 1, 9)\n", "delete(x, 0)\n",
+		"s := x[0:2]\nt := s[0:1]\nt[0] = 99\n", "s := x[0:2]\nf := func(q) { q[1] = 99 }\nf(s)\n", "s := [x[0:3]]\ns[0][0] = 99\n",
+		"s := x[0:0]\ns = append(s, 91, 92, 93)\n", "s := x[3:]\ns = append(s, 91)\n", "s := x[0:2]\ns[0] += 5\n",
+	}
+	mapForm := form{"tbl := {a: 1, b: 2}\ntbl.view = func() { return [tbl.a, tbl.b, len(tbl)] }\nexport tbl\n",
+		"m", "fresh", "m.view()", "[x.a, x.b, len(x)]", "[fx.a, fx.b, len(fx)]", "(a (i 1) (i 2) (i 3))"}
+	mapOps := []string{"c := copy(x)\nc.a = 99\n", "for k, v in x { v = 99; k = \"z\" }\n", "delete(x, \"a\")\n", "c := copy(x)\ndelete(c, \"a\")\nc.z = 1\n",
+		"f := func(q) { q.a = 99 }\nf(copy(x))\n", "c := {a: x.a, b: x.b}\nc.a = 99\n"}
+	for i := 0; i < n; i++ {
+		fm, op := lib.Pick(r, forms), lib.Pick(r, arrOps)
+		if r.Chance(1, 5) {
+			fm, op = mapForm, lib.Pick(r, mapOps)
+		}
+		main := "m := import(\"mod\")\nx := " + fm.x + "\n" + op + "after := " + fm.obs + "\nview := " + fm.view +
+			"\nfresh := import(\"mod\")\nfx := " + fm.fx + "\nfr := " + fm.fobs + "\nview2 := " + strings.Replace(fm.view, "m", "fresh", 1) + "\n"
+		sc := &scriptCase{Stream: "derived", Main: main, Modules: map[string]string{"mod": fm.mod}}
+		o := runScriptCase(sc)
+		res.Count(sc.Stream, main+fm.mod, true)
+		switch {
+		case o.panicked != "":
+			sviol(sc, "import-value-changed-through-derived-value", o.String(), "no panic", "derived-value writes")
+		case o.compileErr != "":
+			res.Dist("derived:compile-error") // generator slip; never expected
+			res.Disagree(lib.Disagreement{Stream: "derived", Input: sc, Model: "script compiles", Impl: o.compileErr})
+		case o.runErr != "":
+			res.Dist("derived:rejected-at-run-time")
+		default:
+			res.Dist("derived:ran")
+			for _, g := range []string{"after", "view", "fr", "view2"} {
+				if o.globals[g] != fm.want {
+					sviol(sc, "import-value-changed-through-derived-value", g+" = "+o.globals[g], g+" = "+fm.want,
+						"writing into a value derived from an import value (slice/append/+/copy/loop variable/splice/delete) must not change what the module exported: checked through the import value, the module's accessor and a fresh import")
+					break
+				}
+			}
+		}
+	}
+}
+
 func rerun(r *lib.RNG, n int) {
 	for i := 0; i < n; i++ {
 		times := 1 + r.Intn(5)
@@ -1448,6 +1507,7 @@ func main() {
 	flushPending()
 	isolation(rng.Fork(), f.Scale(300, 5000))
 	immutable(rng.Fork(), f.Scale(200, 3000))
+	derived(rng.Fork(), f.Scale(600, 6000))
 	rerun(rng.Fork(), f.Scale(100, 2000))
 	emitAndRun(rng.Fork(), f.Scale(100, 2000))
 	nofs(rng.Fork(), f.Scale(150, 1500))
@@ -1531,6 +1591,8 @@ func replay(path string) {
 				if !strings.Contains(o.compileErr, "unresolved reference") {
 					sviol(&sc, "name-visible-across-module-boundary", o.String(), "unresolved reference", "replay")
 				}
+			case "derived":
+				derived(rng.Fork(), 600)
 			case "immutable":
 				o := runScriptCase(&sc)
 				if o.runErr == "" && o.compileErr == "" {
